@@ -24,7 +24,7 @@ PROFILE = netgen.profile(dcline=True, oos=0.06, open_prob=0.25, slack_any_level=
 
 
 QLIM_PROFILE = netgen.profile(dcline=False, oos=0.03, open_prob=0.15, second_slack=3, noslack_island=False,
-                              gen_qlim_range=(0.002, 0.08),
+                              gen_qlim_range=(0.002, 0.08), level_sets=[[110.0], [20.0], [110.0, 20.0], [20.0, 0.4]], nb_level=(3, 5),
                               bus_kinds={"load": 5, "sgen": 2, "gen": 6, "storage": 1, "shunt": 2, "ward": 1, "xward": 0, "motor": 0,
                                          "asymmetric_load": 0, "asymmetric_sgen": 0})
 
@@ -60,7 +60,7 @@ def _case(draw, tier):
         return {"recipe": recipe, "opt": {"mode": "ac", "voltage_depend_loads": draw(st.booleans()), "trafo_model": "t",
                                           "calculate_voltage_angles": True, "numba": draw(st.booleans()), "enforce_q_lims": True,
                                           "lightsim2grid": False},
-                "qcal": draw(st.lists(st.sampled_from(qcal.FACTORS), min_size=4, max_size=4)) if draw(st.integers(0, 2)) else None}
+                "qcal": draw(qcal.factors()) if draw(st.integers(0, 2)) else None}
     recipe = draw(netgen.grid(PROFILE))
     if draw(st.integers(0, 4)) == 0:
         opt = {"mode": "dc"}
@@ -131,7 +131,8 @@ def check(case):
     res.label("mode:" + opt["mode"])
     cal = None
     if case.get("qcal"):
-        cal = qcal.apply(net, case["qcal"], lambda n: run_pf(n, dict(opt, enforce_q_lims=False), recipe))
+        cal = qcal.apply(net, case["qcal"], lambda n: run_pf(n, dict(opt, enforce_q_lims=False), recipe),
+                         lambda n: run_pf(n, opt, recipe))
     try:
         run_pf(net, opt, recipe)
     except Exception as e:
